@@ -48,6 +48,10 @@ def stages(tier, seed, bins):
         if c.get("kernel") == "rbf" and rnd.random() < 0.3:
             c["gamma"] = rnd.choice([1e-5, 1e-7])
         cases.append(c)
+    # sizes beyond any "small problem" switch an implementation may have (size-gated code paths, e.g. `if (N > 1000)`)
+    for N in ([1100] if tier != "thorough" else [1001, 1100, 1500]):
+        for m in ["klle", "kltsa", "hlle"]:
+            cases.append(base(rnd, mode="lle", method=m, N=N, D=3, td=2, k=10, data="swiss", nm="covertree", em="dense", jitter=0.01, timeout=1800, ticks=0))
     return [dict(name="lle", exe=bins["spectral"], cases=finish(cases, "l"), timeout=300)]
 
 
